@@ -38,6 +38,40 @@ Proof.
 Qed.
 Print Assumptions C15_no_bad_call.
 
+(** handler_excl: every handler invocation is of the handler installed by the latest
+    set_notification_handler call that has returned; no set_notification_handler call returns
+    while an invocation is in progress - so no invocation of a handler overlaps or follows
+    the return of the call that replaced it - and at most one invocation is in progress.
+    ([hcheck_log] = (number of returned set_notification_handler calls, inside?, ok?).) *)
+Theorem C15_handler_excl :
+  forall h0 sc s, reach c0 h0 sc s -> hcheck_log (log s) = (hgen s, inside_b (wpcs s), true).
+Proof.
+  intros h0 sc s. apply handler_excl_holds; vm_compute; reflexivity.
+Qed.
+Print Assumptions C15_handler_excl.
+
+(** ... because the invocation happens under the mutex the setters take: the client's call waits *)
+Theorem C15_setter_blocked :
+  forall h0 sc s m b rest, reach c0 h0 sc s ->
+  (wpcs s = Some (WN m N3) \/ wpcs s = Some (WN m N4)) ->
+  cpcs s = CIdle -> script s = CSetHandler b :: rest -> step c0 s Client = None.
+Proof.
+  intros h0 sc s m b rest. apply setter_blocked_holds; vm_compute; reflexivity.
+Qed.
+Print Assumptions C15_setter_blocked.
+
+Theorem C15_setter_blocked_nonvacuous : exists s,
+  reach c0 true hx_script s /\ wpcs s = Some (WN MStart N4) /\ cpcs s = CIdle /\
+  script s = [CSetHandler true; CJoin] /\ hd_error (log s) = Some (ENotify NStart).
+Proof. exact (setter_blocked_nonvacuous c0 (proj1 (proj2 (proj2 C15_table_recognised)))). Qed.
+Print Assumptions C15_setter_blocked_nonvacuous.
+
+(** with the call outside the lock the clause is false of the model *)
+Theorem C15_handler_excl_unlocked_refuted : exists s,
+  reach cfg_call_unlocked true hx_script s /\ snd (hcheck_log (log s)) = false.
+Proof. exact handler_excl_unlocked_refuted. Qed.
+Print Assumptions C15_handler_excl_unlocked_refuted.
+
 (** excl: while the worker is running (its future is not ready) the maintenance flag is set ... *)
 Theorem C15_maintenance_flag :
   forall h0 sc s, reach c0 h0 sc s -> working s = true -> mm s = true.
